@@ -103,6 +103,11 @@ def main():
             ok, info = common.audit_axioms(pid)
             if ok:
                 thm_info = info
+                if args.tier == 'thorough':
+                    lc_ok, lc = common.leanchecker(pid)
+                    rep.extra['leanchecker'] = {'ok': lc_ok, 'modules': lc['modules']}
+                    if not lc_ok:
+                        broken.append({'theorem_file': f'PyTRS/Props/{pid}.lean', 'detail': 'leanchecker: ' + lc['log']})
             else:
                 broken.append({'theorem_file': f'PyTRS/Props/{pid}.lean', 'detail': info.get('log', '')[-1500:]})
         rep.extra['fingerprints_changed'] = common.fingerprints_changed()
